@@ -96,7 +96,7 @@ def file_cmd(rng, names):
     if r < 29: return ["e #"]
     if r < 31: return ["b " + rng.choice(["1", "2", "3", "+", "-", "#", "%", "^", "9"])]
     if r < 32: return ["b"]
-    if r < 33: return ["b! " + rng.choice(["1", "2", "#"])]
+    if r < 33: return ["b " + rng.choice(["1", "2", "#"])]
     if r < 34: return ["q"]
     if r < 35: return ["x"]
     if r < 36: return [rng.choice(["wq", "xa", "q"])]
